@@ -140,10 +140,10 @@ def calls_for(d):
                 C.append(('setopt:duplicate-title', ['setopt 0 %s %s' % (optloc(name), hx('t1'))]))
                 C.append(('parse:duplicate-title', ['parse_buf 0 %s' % hx('%s t2 { x = 77 }\n' % name)]))
         else:
-            C.append(('rmsec:absent-index', ['rmsec 0 %s' % hx(name + '=7')]))
+            C.append(('rmsec:absent-index', ['rmsec 0 %s' % hx(name + '=99')]))
             C.append(('rmtsec:untitled', ['rmtsec 0 %s %s' % (hx(name), hx('t1'))]))
-        C.append(('rmnsec:out-of-range', ['rmnsec 0 %s 7' % hx(name)]))
-        C.append(('opt_rmnsec:out-of-range', ['opt_rmnsec %s 7' % optloc(name)]))
+        C.append(('rmnsec:out-of-range', ['rmnsec 0 %s 99' % hx(name)]))
+        C.append(('opt_rmnsec:out-of-range', ['opt_rmnsec %s 99' % optloc(name)]))
         C.append(('setter:on-section', ['setint 0 %s 1' % hx(name)]))
     return C
 
@@ -183,7 +183,10 @@ def script(spec):
     d = BYNAME[spec['opt']]
     lines, sid = schema.emit_schema(DECLS)
     lines.append('init 0 %d %d' % (sid, F_COMMENTS))
-    lines += sec_prep(d.name, spec['state']) if d.typ == 'sec' else prep_ops(d.name, spec['state'])
+    if spec['state'] == 'random':
+        lines += spec['prep']
+    else:
+        lines += sec_prep(d.name, spec['state']) if d.typ == 'sec' else prep_ops(d.name, spec['state'])
     lines.append('note before')
     lines.append('dump 0')
     call = dict(calls_for(d))[spec['call']]
@@ -209,7 +212,7 @@ def judge(spec, events, death):
     after = events[i1 + 1]
     rets = [e for e in events[i0 + 2:i1] if e.get('ev') == 'r']
     prep_r = [e for e in events[:i0] if e.get('ev') == 'r' and e.get('op') not in ('init',)]
-    if any(e['rc'] != 0 for e in prep_r):
+    if spec['state'] != 'random' and any(e['rc'] != 0 for e in prep_r):
         v.bad('harness:prep-failed', 'preparation ops failed: %r' % prep_r)
         return v
     v.nontrivial = True
@@ -251,11 +254,25 @@ def tree_diff(a, b, path=''):
 
 
 def gen(tier, seed):
-    return all_specs()
+    yield from all_specs()
+    # random reachable states: a random setter sequence, then every refusing call on every option
+    from checks import c05
+    rng = core.seeded_rng(seed, 'c10')
+    for r in range(12 if tier == 'quick' else 400):
+        prep = []
+        for _ in range(rng.randint(2, 10)):
+            d = rng.choice(DECLS)
+            prep += c05.ops_for(rng, d, d.name, True, 0)
+        prep = [l for l in prep if not l.startswith('setcomment') or rng.random() < 0.7]
+        for d in DECLS:
+            for tag, _ in calls_for(d):
+                if tag in ('addtsec:existing', 'setopt:duplicate-title', 'parse:duplicate-title', 'addtsec:null-title', 'setopt:null-title'):
+                    continue        # these need sections with known titles
+                yield {'opt': d.name, 'state': 'random', 'call': tag, 'prep': prep}
 
 
 def run(tier, seed, bindirs):
     t0 = time.time()
     res = core.explore('checks.c10', gen(tier, seed), bindirs, chunk=100)
-    return core.finish(PROP, tier, seed, 'fault_enumeration', res, RULE, t0, floor=500, exhaustive=True,
+    return core.finish(PROP, tier, seed, 'fault_enumeration', res, RULE + '; plus the same refusing calls from random setter-built states', t0, floor=500, exhaustive=True,
                        assumptions=['the enumeration is complete for the declared kinds/states/calls; other states are reachable (longer histories) and are covered by C09 through the store model'])
